@@ -17,8 +17,8 @@ ASSUMPTIONS = ["reference delegation model, schema, signer"]
 
 
 def plan(tier, seed):
-    n = 900 if tier == "quick" else 22000
-    shards = 10 if tier == "quick" else 16
+    n = 4000 if tier == "quick" else 100000
+    shards = 12 if tier == "quick" else 32
     specs = [{"kind": "deleg", "count": n // shards} for _ in range(shards)]
     for _ in range(2 if tier == "quick" else 6):
         specs.append({"kind": "inplace", "count": 60 if tier == "quick" else 600})
